@@ -584,7 +584,8 @@ def handle_fstring_progs(state: TokenizerState, endprog: EndProg) -> Iterator[To
     else:  # "{" or "}"
         middle_end = end - 1
         # like CPython, a format spec always ends in a literal part, even an empty one ('{a:}', '{a:{w}}')
-        if (middle_end > state.pos) or (endprog.text) or endmatch.lastgroup == "RBrace":  # has buffer
+        doubled = state.in_colon() and state.line[end - 1 : end + 1] == "{{"  # CPython: '' before a '{{' in a spec
+        if (middle_end > state.pos) or (endprog.text) or endmatch.lastgroup == "RBrace" or doubled:  # has buffer
             yield state.prog_token(middle_end, Token.FSTRING_MIDDLE)
         if endmatch.lastgroup == "LBrace":
             yield TokenInfo(
